@@ -81,13 +81,14 @@ class SilentFamily:
 
 FAMILIES = [WritePathFamily, SearchFamily, MinMaxFamily, MergeFamily, QueryFamily, FSStoreFamily, LayoutFamily, BuilderFamily, SilentFamily]
 
+# families whose monitors also judge predicates of a property owned by another family: their
+# violations of that property are reported by the property's check as well
+SECONDARY = {"C23": [QueryFamily], "C06": [FSStoreFamily]}
+
 # every harness runs with captured stdout/stderr and every monitor carries C27_Silent: for C27 the other
 # families' verdicts are folded in when their result for this tree is already cached (never computed for it)
 OPPORTUNISTIC = {"C27": [WritePathFamily, SearchFamily, MinMaxFamily, MergeFamily, QueryFamily, FSStoreFamily, LayoutFamily, BuilderFamily]}
 
-# families whose monitors also judge predicates of a property owned by another family: their
-# violations of that property are reported by the property's check as well
-SECONDARY = {"C23": [QueryFamily]}
 
 
 def family_of(pid):
